@@ -446,6 +446,12 @@ def model_env(model, P):
         vi = P.vars[vid]
         v = model.eval(vi.z, model_completion=True)
         env[vi.name] = _z3_to_fraction(v)
+    # symbolic angles created by the harness: value from the model's (cos, sin) pair
+    for vi in P.vars:
+        if vi.kind == "angle" and ("cos_" + vi.name) in P.by_name:
+            c = _z3_to_fraction(model.eval(P.vars[P.by_name["cos_" + vi.name]].z, model_completion=True))
+            s_ = _z3_to_fraction(model.eval(P.vars[P.by_name["sin_" + vi.name]].z, model_completion=True))
+            env[vi.name] = Fraction(math.atan2(float(s_), float(c)))
     return env
 
 
